@@ -126,6 +126,16 @@ def enumerate_cases(tier, shard=0, nshards=1):
                 for code in CODES:
                     out.append({'k': 'agg-err', 'fn': fn, 'where': where,
                                 'pos': pos, 'code': code})
+    # (c2) two errors of different codes: the leftmost in argument order
+    # (range cells in row-major order) wins
+    for fn in AGGS:
+        if fn == 'SUMPRODUCT':
+            continue
+        for c1, c2 in itertools.permutations(CODES, 2):
+            for arr in ('range-scalar', 'scalar-range', 'range-range',
+                        'scalar-scalar', 'tworanges'):
+                out.append({'k': 'agg-err2', 'fn': fn, 'codes': [c1, c2],
+                            'arr': arr})
     # (d)
     for sym in list(BIN) + ['u-']:
         for a in OPERANDS:
@@ -256,6 +266,32 @@ def judge(case):
         return _fn_err(case, res)
     if k == 'agg-err':
         return _agg_err(case, res)
+    if k == 'agg-err2':
+        fn, (c1, c2), arr = case['fn'], case['codes'], case['arr']
+        lead = '0.1,' if fn == 'NPV' else ''
+        cells = {'Sheet1!A1': 4, 'Sheet1!A2': 5, 'Sheet1!A3': 6,
+                 'Sheet1!B1': 7, 'Sheet1!B2': 8}
+        if arr == 'range-scalar':
+            cells['Sheet1!A2'] = YIELD[c1]
+            f = '=%s(%sA1:A3,%s)' % (fn, lead, c2)
+        elif arr == 'scalar-range':
+            cells['Sheet1!A2'] = YIELD[c2]
+            f = '=%s(%s%s,A1:A3)' % (fn, lead, c1)
+        elif arr == 'range-range':
+            cells['Sheet1!A1'] = YIELD[c1]
+            cells['Sheet1!A3'] = YIELD[c2]
+            f = '=%s(%sA1:A3)' % (fn, lead)
+        elif arr == 'tworanges':
+            cells['Sheet1!A3'] = YIELD[c1]
+            cells['Sheet1!B1'] = YIELD[c2]
+            f = '=%s(%sA1:A3,2,B1:B2)' % (fn, lead)
+        else:
+            f = '=%s(%s1,%s,2,%s)' % (fn, lead, c1, c2)
+        o = lib.eval_formula(f, cells, addr='Sheet1!ZZ9')[0]
+        res.labels += (fn, arr)
+        if o != E(c1):
+            res.fail('agg-leftmost-error:%s' % arr, E(c1), o, f)
+        return res
     if k == 'op-types':
         return _op_types(case, res)
     if k == 'chain':
